@@ -200,6 +200,7 @@ def build_case(mod, meta, symbolic=True, concrete_inputs=None, rm_mode='sym'):
             ob['formula'] = b_and(pc, ob['core'])
             if o.slices and ob['kind'] == 'result' and ob.get('lane') is not None:
                 ob['slices'] = o.slices(T, ob['lane'], *args_or)
+                ob['slices_cover'] = bool(getattr(o, 'slices_cover', False))
             if altobs and ob['kind'] == 'result':
                 ob['alt'] = [{'core': al[k]['formula'], 'formula': b_and(pc, al[k]['formula']), 'exp': al[k].get('exp')} for al in altobs]
             case.obligations.append(ob)
